@@ -10,13 +10,17 @@ LEVEL_TEXT = (
     "the compiled body's input list."
 )
 LEVEL_NOTE = (
-    "Trusted as for C03. The clause `body.inputs lists every selected UTxO exactly once` is decided per case on the "
-    "real compile output (not a theorem: compile_inputs is exercised, not modelled, here); it fails for two blocks "
-    "with one name, recorded as known finding C04-duplicate-block-names."
+    "Trusted as for C03. The clause `body.inputs lists every selected UTxO exactly once` is proved over the compile "
+    "model (C04_body_inputs_exact: the body's input list is exactly the concatenation of the blocks' reference lists; "
+    "C04_body_no_duplicates: no repetition when no reference occurs in two blocks or twice in one) and decided per "
+    "case on the real compile output; that the sets substituted into the blocks are the selector's (apply_inputs by "
+    "name) is C06/C07's model. It fails for two blocks with one name, where one set is substituted twice "
+    "(C04_body_duplicates_if_shared), recorded as known finding C04-duplicate-block-names."
 )
 PROP = "C04"
 THEOREMS = [
     "Tx3.selectOne_refs_nodup", "Tx3.resolveQueries_inv", "Tx3.C04_disjoint", "Tx3.C04_every_block_bound",
+    "Tx3.C04_body_inputs_exact", "Tx3.C04_body_no_duplicates", "Tx3.C04_body_duplicates_if_shared",
 ]
 RULE = (
     "cases = templates with k in 1..4 non-collateral blocks whose queries overlap (same party, same assets, "
@@ -27,5 +31,5 @@ RULE = (
 
 
 def check(tier, seed, replay):
-    return c03.check(tier, seed, replay, prop=PROP, theorems=THEOREMS, targets=["Tx3Proofs.C04"],
+    return c03.check(tier, seed, replay, prop=PROP, theorems=THEOREMS, targets=["Tx3Proofs.C04", "Tx3Proofs.C04Body"],
                      level_rule=RULE, assumptions=c03.ASSUMPTIONS)
